@@ -22,6 +22,18 @@ fn main() {
     };
     std::process::exit(code);
   }
+  if args[0] == "__bytes" {
+    // development aid: run one byte input of the coverage-guided stage: vprop __bytes <PROP> <file>
+    install_panic_hook();
+    let data = std::fs::read(&args[2]).expect("read input");
+    let erased = vprop::fuzz::by_name(&args[1], args.get(3).map(|s| s == "in-target").unwrap_or(false)).expect("no fuzz entry");
+    let mut st = Stats::new();
+    match erased.run(&data, &mut st, true) {
+      None => println!("held; labels {:?} discarded {:?}", st.labels, st.discarded),
+      Some(v) => println!("FAIL {}\n{}\n{}", v.signature, v.message, v.case),
+    }
+    std::process::exit(0);
+  }
   let prop = args[0].clone();
   let mut tier = match std::env::var("VERIF_TIER").as_deref() {
     Ok("thorough") => Tier::Thorough,
